@@ -51,6 +51,25 @@ Definition wf_step (n : nat) (steps : list (step T)) (j : nat) (t : step T) : Pr
 Definition wf_dend (n : nat) (steps : list (step T)) : Prop :=
   length steps = n - 1 /\ forall j t, nth_error steps j = Some t -> wf_step n steps j t.
 
+(* the label of the cluster containing observation x after applying the first
+   i steps of a stepwise dendrogram: step j replaces its two labels by n+j *)
+Fixpoint labi (n : nat) (steps : list (step T)) (i : nat) (x : nat) : nat :=
+  match i with
+  | 0 => x
+  | S i' => let l := labi n steps i' x in
+            match nth_error steps i' with
+            | Some t => if (l =? s_c1 t) || (l =? s_c2 t) then n + i' else l
+            | None => l
+            end
+  end.
+
+Lemma labi_ext (n : nat) (l1 l2 : list (step T)) (i x : nat) :
+  (forall j, j < i -> nth_error l1 j = nth_error l2 j) -> labi n l1 i x = labi n l2 i x.
+Proof.
+  induction i as [|i IH]; intros H; [reflexivity|]. cbn [labi].
+  rewrite IH by (intros j Hj; apply H; lia). rewrite (H i) by lia. reflexivity.
+Qed.
+
 (* loop invariant after i iterations of the relabelling loop *)
 Record RInv (n : nat) (sorted : list (step T)) (i : nat) (u : ufind) (d : dend T) : Prop := {
   ri_u : UInv n i u;
@@ -63,7 +82,10 @@ Record RInv (n : nat) (sorted : list (step T)) (i : nat) (u : ufind) (d : dend T
       /\ nth_error (u_parents u) (s_c1 t) <> Some (s_c1 t)
       /\ nth_error (u_parents u) (s_c2 t) <> Some (s_c2 t);
   ri_rel : forall x y, x < n -> y < n ->
-      (Ru (u_parents u) x y <-> add_edges eq (edges (firstn i sorted)) x y)
+      (Ru (u_parents u) x y <-> add_edges eq (edges (firstn i sorted)) x y);
+  ri_lab : forall x, x < n -> reaches (u_parents u) x (labi n (d_steps d) i x);
+  ri_hist : forall j x y, j <= i -> x < n -> y < n ->
+      (labi n (d_steps d) j x = labi n (d_steps d) j y <-> add_edges eq (edges (firstn j sorted)) x y)
 }.
 
 Lemma add_edges_app (R : rel) l1 l2 : add_edges R (l1 ++ l2) = add_edges (add_edges R l1) l2.
@@ -137,7 +159,7 @@ Lemma relabel_step_inv (n : nat) (sorted : list (step T)) (i : nat) (u : ufind) 
   exists u' d', relabel_step (u, d) i = Ok (u', d') /\ RInv n sorted (S i) u' d'.
 Proof.
   intros HI Hlen Hs Hc1 Hc2 Hnt.
-  destruct HI as [Hu Hobs Hdl Hrest Hdis Hdone Hrel].
+  destruct HI as [Hu Hobs Hdl Hrest Hdis Hdone Hrel Hlab Hhist].
   assert (Hi : i < n - 1) by (rewrite <- Hlen; apply nth_error_Some; congruence).
   assert (Hget : d_get d i = Ok s).
   { unfold d_get, vget. rewrite (Hrest i (le_n i)), Hs. reflexivity. }
@@ -175,6 +197,39 @@ Proof.
   { intros x r Hx. apply P3. apply P2. apply P1. exact Hx. }
   assert (Hnewsteps : forall j, j <> i -> nth_error (set_nth (d_steps d) i news) j = nth_error (d_steps d) j).
   { intros j Hj. apply nth_error_set_nth_neq. exact Hj. }
+  assert (Hpart : forall x y, x < n -> y < n ->
+            (Ru (u_parents u3) x y <-> add_edges eq (edges (firstn (S i) sorted)) x y)).
+  { (* the partition: joined the classes of c1 and c2 *)
+    intros x y Hx Hy. rewrite (firstn_S_nth _ _ Hs). unfold edges. rewrite map_app, add_edges_app. cbn [map add_edges edge_of].
+    set (R := add_edges eq (map edge_of (firstn i sorted))).
+    destruct (@root_exists n i u Hu (2 * n - 1 - x) x ltac:(lia) ltac:(lia)) as (rx & Rx & _ & _ & Bx & _).
+    destruct (@root_exists n i u Hu (2 * n - 1 - y) y ltac:(lia) ltac:(lia)) as (ry & Ry & _ & _ & By & _).
+    assert (Bx' : rx < n + i) by lia. assert (By' : ry < n + i) by lia.
+    assert (Rroot : forall a b ra rb, a < n -> b < n -> reaches (u_parents u) a ra -> reaches (u_parents u) b rb ->
+              (R a b <-> ra = rb)).
+    { intros a b ra rb Ha Hb Hra Hrb. unfold R. rewrite <- (Hrel a b Ha Hb). split.
+      - intros (r & A & B). rewrite (reaches_det Hra A), (reaches_det Hrb B). reflexivity.
+      - intros ->. exists rb. split; assumption. }
+    pose proof (PM _ _ Rx) as Rx3. pose proof (PM _ _ Ry) as Ry3.
+    assert (E1 : R x (s_c1 s) <-> rx = r1) by (apply Rroot; assumption).
+    assert (E2 : R x (s_c2 s) <-> rx = r2) by (apply Rroot; assumption).
+    assert (E3 : R (s_c2 s) y <-> r2 = ry) by (apply Rroot; assumption).
+    assert (E4 : R (s_c1 s) y <-> r1 = ry) by (apply Rroot; assumption).
+    assert (E5 : R x y <-> rx = ry) by (apply Rroot; assumption).
+    unfold add_edge. rewrite E1, E2, E3, E4, E5.
+    rewrite <- (@merge_map_eq (n + i) r1 r2 rx ry Bx' By').
+    split.
+    + intros (r & A & B). rewrite (reaches_det A Rx3) in B. exact (reaches_det B Ry3).
+    + intros E. exists (if (rx =? r1) || (rx =? r2) then n + i else rx). split; [exact Rx3|].
+      rewrite E. exact Ry3. }
+  assert (Hlab3 : forall x, x < n -> reaches (u_parents u3) x (labi n (set_nth (d_steps d) i news) (S i) x)).
+  { intros x Hx. cbn [labi]. rewrite nth_error_set_nth_eq by lia.
+    rewrite (@labi_ext n (set_nth (d_steps d) i news) (d_steps d) i x) by (intros k Hk; apply Hnewsteps; lia).
+    pose proof (PM _ _ (Hlab x Hx)) as R3. rewrite N1, N2.
+    assert (Eor : forall l, ((l =? Nat.min r1 r2) || (l =? Nat.max r1 r2)) = ((l =? r1) || (l =? r2))).
+    { intros l. destruct (Nat.le_gt_cases r1 r2); [rewrite Nat.min_l, Nat.max_r by lia; reflexivity|].
+      rewrite Nat.min_r, Nat.max_l by lia. apply Bool.orb_comm. }
+    rewrite Eor. exact R3. }
   constructor; cbn [d_steps d_obs].
   - exact Hu3.
   - exact Hobs.
@@ -241,29 +296,15 @@ Proof.
         intros y r Hy. eexists. split; [apply PM; exact Hy|].
         destruct ((r =? r1) || (r =? r2)) eqn:E; [|lia].
         apply Bool.orb_true_iff in E. destruct E as [E|E]; apply Nat.eqb_eq in E; lia.
-  - (* the partition: joined the classes of c1 and c2 *)
-    intros x y Hx Hy. rewrite (firstn_S_nth _ _ Hs). unfold edges. rewrite map_app, add_edges_app. cbn [map add_edges edge_of].
-    set (R := add_edges eq (map edge_of (firstn i sorted))).
-    destruct (@root_exists n i u Hu (2 * n - 1 - x) x ltac:(lia) ltac:(lia)) as (rx & Rx & _ & _ & Bx & _).
-    destruct (@root_exists n i u Hu (2 * n - 1 - y) y ltac:(lia) ltac:(lia)) as (ry & Ry & _ & _ & By & _).
-    assert (Bx' : rx < n + i) by lia. assert (By' : ry < n + i) by lia.
-    assert (Rroot : forall a b ra rb, a < n -> b < n -> reaches (u_parents u) a ra -> reaches (u_parents u) b rb ->
-              (R a b <-> ra = rb)).
-    { intros a b ra rb Ha Hb Hra Hrb. unfold R. rewrite <- (Hrel a b Ha Hb). split.
-      - intros (r & A & B). rewrite (reaches_det Hra A), (reaches_det Hrb B). reflexivity.
-      - intros ->. exists rb. split; assumption. }
-    pose proof (PM _ _ Rx) as Rx3. pose proof (PM _ _ Ry) as Ry3.
-    assert (E1 : R x (s_c1 s) <-> rx = r1) by (apply Rroot; assumption).
-    assert (E2 : R x (s_c2 s) <-> rx = r2) by (apply Rroot; assumption).
-    assert (E3 : R (s_c2 s) y <-> r2 = ry) by (apply Rroot; assumption).
-    assert (E4 : R (s_c1 s) y <-> r1 = ry) by (apply Rroot; assumption).
-    assert (E5 : R x y <-> rx = ry) by (apply Rroot; assumption).
-    unfold add_edge. rewrite E1, E2, E3, E4, E5.
-    rewrite <- (@merge_map_eq (n + i) r1 r2 rx ry Bx' By').
-    split.
-    + intros (r & A & B). rewrite (reaches_det A Rx3) in B. exact (reaches_det B Ry3).
-    + intros E. exists (if (rx =? r1) || (rx =? r2) then n + i else rx). split; [exact Rx3|].
-      rewrite E. exact Ry3.
+  - exact Hpart.
+  - exact Hlab3.
+  - intros j x y Hj Hx Hy. destruct (Nat.eq_dec j (S i)) as [->|Hne'].
+    + rewrite <- (Hpart x y Hx Hy). split.
+      * intros E. exists (labi n (set_nth (d_steps d) i news) (S i) x). split; [apply Hlab3; exact Hx|].
+        rewrite E. apply Hlab3; exact Hy.
+      * intros (r & A & B). rewrite (reaches_det (Hlab3 x Hx) A), (reaches_det (Hlab3 y Hy) B). reflexivity.
+    + rewrite !(@labi_ext n (set_nth (d_steps d) i news) (d_steps d) j) by (intros k Hk; apply Hnewsteps; lia).
+      apply Hhist; [lia|exact Hx|exact Hy].
 Qed.
 
 Lemma nontrivial_at (R : rel) l1 a b l2 : all_nontrivial R (l1 ++ (a, b) :: l2) -> ~ add_edges R l1 a b.
@@ -323,6 +364,11 @@ Proof.
     split.
     + intros (r & A & B). apply reset_reaches in A, B. congruence.
     + intros ->. exists y. split; apply Hroot; exact Hy.
+  - intros x Hx. cbn [labi]. rewrite u_reset_canonical. cbn [u_parents u_canonical].
+    assert (Hsz : u_size n = 2 * n - 1) by (unfold u_size; destruct (Nat.eqb_spec n 0); [lia|reflexivity]).
+    constructor. rewrite nth_error_map, (nth_error_nth' _ 0) by (rewrite seq_length; lia).
+    rewrite seq_nth by lia. reflexivity.
+  - intros j x y Hj Hx Hy. assert (j = 0) by lia. subst j. cbn [labi firstn edges map add_edges]. tauto.
 Qed.
 
 (* relabel on a forest of raw steps: never panics beyond the sort's NaN panic,
@@ -353,11 +399,49 @@ Proof.
   { destruct sorting; [exact Hsort|subst; reflexivity]. }
   rewrite Hs. cbn [bind]. unfold d_len. cbn [d_steps]. rewrite Hlen0.
   split; [exact Hfold|].
-  destruct HI as [Hu Hobs Hdl Hrest Hdis Hdone Hrel].
+  destruct HI as [Hu Hobs Hdl Hrest Hdis Hdone Hrel Hlab Hhist].
   split; [|split; [exact Hobs|exact Hdis]].
   split; [rewrite Hdl; exact Hlen0|].
   intros j t Ht. apply Hdone; [|exact Ht].
   rewrite <- Hlen0, <- Hdl. apply nth_error_Some. congruence.
 Qed.
+
+(* ... and for every j, applying the first j returned steps (labels read as in
+   C01) yields the partition generated by the first j (sorted) raw pairs *)
+Theorem relabel_cuts (u : ufind) (d : dend T) (sorting : bool) (steps0 : list (step T)) :
+  let n := d_obs d in
+  1 <= n -> length (d_steps d) = n - 1 ->
+  (forall s, In s (d_steps d) -> s_c1 s < n /\ s_c2 s < n) ->
+  all_nontrivial eq (edges (d_steps d)) ->
+  (if sorting then sort_steps ltb eqb (d_steps d) = Ok steps0 else steps0 = d_steps d) ->
+  exists u' d', relabel ltb eqb u d sorting = Ok (u', d')
+    /\ wf_dend n (d_steps d') /\ d_obs d' = n
+    /\ map (@s_dis T) (d_steps d') = map (@s_dis T) steps0
+    /\ (forall j x y, j <= n - 1 -> x < n -> y < n ->
+          (labi n (d_steps d') j x = labi n (d_steps d') j y <-> add_edges eq (edges (firstn j steps0)) x y)).
+Proof.
+  intros n Hn Hlen Hends Hnt Hsort.
+  assert (Hperm : Permutation (d_steps d) steps0).
+  { destruct sorting; [|subst; apply Permutation_refl].
+    exact (proj2 (@sort_steps_ok T ltb eqb (fun a b => @gt_flip' a b) _ _ Hsort)). }
+  assert (Hlen0 : length steps0 = n - 1) by (rewrite <- (Permutation_length Hperm); exact Hlen).
+  assert (Hends0 : forall s, In s steps0 -> s_c1 s < n /\ s_c2 s < n).
+  { intros s Hs. apply Hends. apply Permutation_in with steps0; [apply Permutation_sym; exact Hperm|exact Hs]. }
+  assert (Hnt0 : all_nontrivial eq (edges steps0)).
+  { exact (proj1 (@forest_permutation _ _ (Permutation_map edge_of Hperm) eq eq_equiv Hnt)). }
+  destruct (@relabel_fold n steps0 Hlen0 Hends0 Hnt0 (n - 1) 0 _ _ ltac:(lia) (@rinv_init n steps0 u Hn Hlen0))
+    as (u' & d' & Hfold & HI).
+  exists u', d'. unfold relabel. fold n.
+  assert (Hs : (if sorting then sort_steps ltb eqb (d_steps d) else Ok (d_steps d)) = Ok steps0).
+  { destruct sorting; [exact Hsort|subst; reflexivity]. }
+  rewrite Hs. cbn [bind]. unfold d_len. cbn [d_steps]. rewrite Hlen0.
+  split; [exact Hfold|].
+  destruct HI as [Hu Hobs Hdl Hrest Hdis Hdone Hrel Hlab Hhist].
+  split; [|split; [exact Hobs|split; [exact Hdis|exact Hhist]]].
+  split; [rewrite Hdl; exact Hlen0|].
+  intros j t Ht. apply Hdone; [|exact Ht].
+  rewrite <- Hlen0, <- Hdl. apply nth_error_Some. congruence.
+Qed.
+
 
 End Relabel.
